@@ -110,11 +110,14 @@ def generate(root, seed, tier):
     # list macros: groups of three
     for i in range(0, min(len(ok_l), 30), 3):
         grp = ok_l[i:i + 3]
-        add('langids', grp, 'Vec<LanguageIdentifier>', 'langids![%s]' % ', '.join(rust_str(x) for x in grp))
-        add('langid_slice', grp, "&'static [LanguageIdentifier]" if False else 'usize', 'langid_slice![%s].len()' % ', '.join(rust_str(x) for x in grp))
+        # both arms of the list macros (with and without a trailing comma), each at its documented type
+        tc = ',' if (i // 3) % 2 else ''
+        add('langids', grp, 'Vec<LanguageIdentifier>', 'let v: Vec<LanguageIdentifier> = langids![%s%s]; v' % (', '.join(rust_str(x) for x in grp), tc))
+        add('langid_slice', grp, 'usize', 'let s: &[LanguageIdentifier] = langid_slice![%s%s]; s.len()' % (', '.join(rust_str(x) for x in grp), tc))
     for i in range(0, min(len(ok_loc), 18), 3):
         grp = ok_loc[i:i + 3]
-        add('locales', grp, 'Vec<Locale>', 'locales![%s,]' % ', '.join(rust_str(x) for x in grp))
+        tc = ',' if (i // 3) % 2 else ''
+        add('locales', grp, 'Vec<Locale>', 'let v: Vec<Locale> = locales![%s%s]; v' % (', '.join(rust_str(x) for x in grp), tc))
     with open(os.path.join(root, 'ok', 'src', 'lib.rs'), 'w') as f:
         f.write('\n'.join(lines) + '\n')
     # ---- ill-formed: one invocation per line
